@@ -532,11 +532,36 @@ def extender_chain_world(rng):
     return {"L": length, "circular": circular, "genes": genes, "hits": hits, "rules": [rule], "multipliers": [1.0, 1.0]}
 
 
+def extender_same_start_world(rng):
+    """ a gene over the origin that only an extender profile hits, within the cutoff before a core lying after the
+        origin, and a short gene beginning at the very coordinate where the gene over the origin begins, whose end is
+        out of reach: walking back from the core, the gene over the origin is met, whatever begins where it begins """
+    cutoff = rng.choice([1000, 2000, 3000])
+    post = rng.choice([150, 200, 400])
+    gap = rng.choice([1, 500, cutoff // 2, cutoff - 1])
+    pre = cutoff + rng.choice([500, 1000])
+    short = rng.choice([100, 300])
+    length = rng.choice([4, 5, 6]) * cutoff + pre
+    core_at = post + gap
+    genes = {"over": {"loc": {"parts": [[length - pre, length], [0, post]], "strand": rng.choice([1, -1])}},
+             "same": {"loc": {"parts": [[length - pre, length - pre + short]], "strand": rng.choice([1, -1])}},
+             "core": {"loc": {"parts": [[core_at, core_at + 300]], "strand": rng.choice([1, -1])}},
+             # (the walk in the other direction stops at this one, further than the cutoff after the core)
+             "block": {"loc": {"parts": [[core_at + cutoff + 800, core_at + cutoff + 1000]], "strand": 1}}}
+    hits = {"over": {"b": 30}, "core": {"a": 30}}
+    if rng.random() < 0.5:
+        hits["same"] = {"c": 30}
+    rule = {"name": "r0", "cutoff_kb": cutoff // 1000, "ast": ["id", "a"], "nb_kb": rng.choice([1, 2]), "superiors": [],
+            "extenders": ["id", "b"]}
+    return {"L": length, "circular": True, "genes": genes, "hits": hits, "rules": [rule], "multipliers": [1.0, 1.0]}
+
+
 def run(ctx):
     install_all(ctx)
     try:
         rng = ctx.rng("worlds")
         chain_rng = ctx.rng("extender-chains")
+        same_start_rng = ctx.rng("extender-same-start")
         for index in ctx.cases(ctx.quota(2500, 200000)):
             if index % 12 == 11:
                 world = extender_chain_world(chain_rng)
@@ -544,6 +569,10 @@ def run(ctx):
             else:
                 world = W.gen_world(rng)
             ctx.guard("harness-or-crash", world, run_world, ctx, world)
+            if index % 24 == 5:
+                world = extender_same_start_world(same_start_rng)
+                ctx.count("class:extender-over-origin-beginning-where-another-gene-begins")
+                ctx.guard("harness-or-crash", world, run_world, ctx, world)
     finally:
         instrument.uninstall_all()
 
